@@ -123,15 +123,18 @@ def _normalize_extra_values(results: Any) -> Any:
     """
     Normalize extra values.
     """
-    if isinstance(results[0], tuple):
-        lhs, op, rhs = results[0]
-        if isinstance(lhs, Variable) and lhs.value == "extra":
-            normalized_extra = canonicalize_name(rhs.value)
-            rhs = Value(normalized_extra)
-        elif isinstance(rhs, Variable) and rhs.value == "extra":
-            normalized_extra = canonicalize_name(lhs.value)
-            lhs = Value(normalized_extra)
-        results[0] = lhs, op, rhs
+    for index, result in enumerate(results):
+        if isinstance(result, list):
+            _normalize_extra_values(result)
+        elif isinstance(result, tuple):
+            lhs, op, rhs = result
+            if isinstance(lhs, Variable) and lhs.value == "extra":
+                normalized_extra = canonicalize_name(rhs.value)
+                rhs = Value(normalized_extra)
+            elif isinstance(rhs, Variable) and rhs.value == "extra":
+                normalized_extra = canonicalize_name(lhs.value)
+                lhs = Value(normalized_extra)
+            results[index] = lhs, op, rhs
     return results
 
 
